@@ -127,7 +127,7 @@ def getBase (E : Env) (tag : List (Bytes × Bytes)) : Except Bytes Int :=
   if sbase = [] then .ok 10
   else match parseInt sbase 10 32 with
     | .ok b => .ok b
-    | .error e => .error (numErrorText E "ParseInt" sbase e)
+    | .error e => .error (numErrorText E (B "ParseInt") sbase e)
 
 /-- `convert` into a scalar destination; the error is `err.Error()`. -/
 def convertSc (E : Env) (tag : List (Bytes × Bytes)) (val : Bytes) : Sc → Except Bytes SVal
@@ -136,17 +136,17 @@ def convertSc (E : Env) (tag : List (Bytes × Bytes)) (val : Bytes) : Sc → Exc
     if val = [] then .ok (.bool true)
     else match parseBool val with
       | some b => .ok (.bool b)
-      | none => .error (numErrorText E "ParseBool" val .syntax)
+      | none => .error (numErrorText E (B "ParseBool") val .syntax)
   | .int bits _ => do
     let base ← getBase E tag
     match parseInt val base bits with
     | .ok v => .ok (.int v)
-    | .error e => .error (numErrorText E "ParseInt" val e)
+    | .error e => .error (numErrorText E (B "ParseInt") val e)
   | .uint bits _ => do
     let base ← getBase E tag
     match parseUint val base bits with
     | .ok v => .ok (.uint v)
-    | .error e => .error (numErrorText E "ParseUint" val e)
+    | .error e => .error (numErrorText E (B "ParseUint") val e)
   | .float bits =>
     match E.parseFloat val bits with
     | .ok v => .ok (.float v)
